@@ -503,6 +503,46 @@ class Body:
             return seen
         return seen
 
+    def witness(self, src, dst, avoid=(), avoid_edges=(), after=True):
+        """A shortest CFG path src -> dst (not entering `avoid`), rendered as the distinct source
+        locations it crosses; [] if none. Used to make path-rule reports diagnosable."""
+        avoid = set(avoid)
+        avoid_edges = set(avoid_edges)
+        parent = {}
+        starts = [q for (q, _l) in self.succ[src] if q not in avoid and (src, q) not in avoid_edges] if after else [src]
+        dq = deque()
+        for q in starts:
+            if q not in parent:
+                parent[q] = src
+                dq.append(q)
+        found = dst in parent
+        while dq and not found:
+            p = dq.popleft()
+            for (q, _l) in self.succ[p]:
+                if q in parent or q in avoid or (p, q) in avoid_edges:
+                    continue
+                parent[q] = p
+                if q == dst:
+                    found = True
+                    break
+                dq.append(q)
+        if not found:
+            return []
+        path = [dst]
+        while path[-1] != src and path[-1] in parent:
+            path.append(parent[path[-1]])
+            if len(path) > 5000:
+                break
+        path.reverse()
+        locs = []
+        for p in path:
+            if (self.exp_at(p) or '').startswith('Macro'):
+                continue
+            l = self.loc(p)
+            if not locs or locs[-1] != l:
+                locs.append(l)
+        return locs
+
     def reach_after(self, src, avoid=(), avoid_edges=()):
         """Points reachable strictly after src (src itself only if on a cycle)."""
         avoid = set(avoid)
